@@ -357,6 +357,7 @@ func (c *chain) step(rc *runCtx, i int) (stop bool) {
 	rm := c.rng.Fork() // mutants
 	rd := c.rng.Fork() // delivery
 	head := z.Hc.CurrentHeader()
+	c.height = i
 	c.genPool(r)
 	fill := !r.Chance(c.cfg.NoFillPct)
 	cj := caseJSON{ID: caseID(c.cfg.Idx, i, 0), Seed: rc.seed, Chain: c.cfg.Idx, Blocks: rc.blocks, Block: i, Mutant: "honest"}
@@ -403,8 +404,14 @@ func (c *chain) step(rc *runCtx, i int) (stop bool) {
 		rc.rep.Nontrivial(fmt.Sprintf("c%d/q%d/e%d/i%d/o%d/g%d", c.cfg.Idx%4, nq, ne, nqi, len(b.OutboundEtxs()), b.GasUsed()/21000))
 	}
 
+	// the property's own predicate on the assembled body (independent of the validator)
+	if sig, what := c.checkBodyConflicts(b); sig != "" {
+		rc.rep.Fail(sig, what, cj)
+	}
+	rc.rep.Count(fmt.Sprintf("block/pool-qi-conflicts-left-out=%s", bucket(c.conflictsLeftOut(b))))
+
 	// sibling on a copy of the pre-state
-	doMut := c.funded && (rc.tgt != nil || rm.Chance(rc.mutPct))
+	doMut := c.funded && (rc.tgt != nil || rm.Chance(rc.mutPct)) && !c.noMut
 	if rc.tgt != nil && rc.tgt.block != i {
 		doMut = false
 	}
